@@ -75,7 +75,8 @@ VARIANTS = dict(
     C05=dict(quick=['resume/0/2', 'resume/1/2', 'slices'],
              thorough=['resume2/0/3', 'resume2/1/3', 'resume2/2/3', 'slices', 'mixed/0/2',
                        'mixed/1/2']),
-    C10=dict(quick=['slices', 'resume', 'raise'], thorough=['slices', 'resume', 'raise', 'finish']),
+    C10=dict(quick=['slices', 'resume', 'raise'],
+             thorough=['slices', 'resume', 'raise', 'finish', 'mixed/0/2', 'mixed/1/2']),
     C11=dict(quick=['observe'], thorough=['observe']),
     C12=dict(quick=['toggle-resume/0/2', 'toggle-resume/1/2', 'toggle2/0/2', 'toggle2/1/2', 'nshell'],
              thorough=['toggle-resume/0/2', 'toggle-resume/1/2', 'toggle3/0/3', 'toggle3/1/3',
@@ -115,6 +116,8 @@ def config(prop, tier, scn, variant):
                 else []
     elif variant == 'resume2':
         cfg.update(alphabet=_alpha(('step',), ('resume',)), R=2)
+    elif variant == 'resume3':
+        cfg.update(alphabet=_alpha(('step',), ('resume',)), R=3)
     elif variant in ('toggle', 'toggle2'):
         def alphabet(st):
             since = _since_toggle(st)
@@ -174,7 +177,7 @@ def config(prop, tier, scn, variant):
                 if tier == 'thorough':
                     acts += [('sched', 'rot2'), ('sched', 'perm3'), ('sched', 'perm7')]
             return acts
-        cfg.update(alphabet=alphabet, loops=_loops_C11, S=1 if tier == 'quick' else 2)
+        cfg.update(alphabet=alphabet, loops=_loops_C11, S=1 if tier == 'quick' else 3)
     elif variant == 'toggle-resume':
         def alphabet(st):
             since = _since_toggle(st)
@@ -217,7 +220,8 @@ SCENARIOS = dict(
              thorough=['gauss', 'gauss_net', 'two', 'ring_net', 'half', 'plateau', 'wrap',
                        'wrap_net', 'g3_pool_s', 'two_pool_s', 'b7_update', 'blob_two_obj', 'b1',
                        'funnel_net', 'funnel', 'nlb', 'nlb_ring', 'empty', 'two_split', 'ring_split_net',
-                       'const', 'nuisance3_net', 'wrap_pool_s']),
+                       'const', 'nuisance3_net', 'wrap_pool_s', 'gauss:resume3', 'half:resume3',
+                       'plateau:resume3', 'const:resume3']),
     C02=dict(quick=['gauss_d', 'half', 'gauss_t', 'wrap_net', 'two_split:resume/0/2+resume/1/2',
                     'const:resume',
                     'funnel_net:resume/0/2+resume/1/2+nshell',
